@@ -847,6 +847,11 @@ func dbEq(a, b Ghost) Term {
 }
 
 func (env *rEnv) ident(name string) Value {
+	if name == "db" {
+		// the ghost database; a Go parameter or local that happens to be called db does not shadow it (contracts
+		// reach such a parameter through callarg())
+		return rDB{env.st().g}
+	}
 	if env.useEntry && env.entryVars != nil {
 		if v, ok := env.entryVars[name]; ok {
 			return v
